@@ -285,10 +285,26 @@ def parse_obs(impl):
     return hs, table, int(tail["live"]), int(tail["bad"])
 
 
+_EQ_CACHE = {}
+
+
 def ref_eq(impl, ref):
-    """the property evaluated on the implementation's observation line"""
+    """the property evaluated on the implementation's observation line (memoised: the exhaustive scopes share prefixes and
+    the schedules of one scenario mostly share their final observation)"""
     if not ref.startswith("V "):
         return impl == ref
+    if " # " in impl:
+        impl = impl.split(" # ", 1)[1]
+    key = (impl, ref)
+    r = _EQ_CACHE.get(key)
+    if r is None:
+        if len(_EQ_CACHE) > 300000:
+            _EQ_CACHE.clear()
+        r = _EQ_CACHE[key] = ref_eq_uncached(impl, ref)
+    return r
+
+
+def ref_eq_uncached(impl, ref):
     try:
         p = parse_obs(impl)
     except (ValueError, KeyError, IndexError):
